@@ -1,6 +1,7 @@
 import VrpModel.ArcBased
 import VrpModel.PathBased
 import VrpModel.SeqBased
+import VrpModel.Heuristics
 import Driver.Proto
 import Driver.GraphCmd
 /-! driver commands for the three formulations (C02–C09, C18) -/
@@ -157,9 +158,32 @@ def cmdArcDecode : P String := do
   if !I.decodeAsserts x then pure "err:assert" else
   pure s!"ok {showList (fun r => showList (fun (st : Nat × Rat) => s!"{st.1} {showRat st.2}") r) (I.decode x)}"
 
+/-- `seq.heur <inst> <high>` → new instance state + stored solution -/
+def cmdSeqHeur : P String := do
+  let I ← pSeqInst; let high ← pRat; pEnd
+  match I.makeFeasible high with
+  | .error e => pure (showErr e)
+  | .ok (J, sol) => pure s!"ok {showGraph J.g} | {J.V} {J.L} {showRats J.vcost} | {showRats sol}"
+
+def cmdArcHeur : P String := do
+  let I ← pArcInst; let high ← pRat; pEnd
+  match I.makeFeasible high with
+  | .error e => pure (showErr e)
+  | .ok (J, sol) => pure s!"ok {showGraph J.g} | {showRats J.T} | {showRats sol}"
+
+/-- `path.heur <pool literal> <high> <choices>`: the sampler's choices are scripted -/
+def cmdPathHeur : P String := do
+  let Pp ← pPathLit; let high ← pRat; let choices ← pList pNat; pEnd
+  let pick : Nat → List Nat → Nat := fun c cands =>
+    cands.getD ((choices.getD (c % (max choices.length 1)) 0) % (max cands.length 1)) 0
+  match Pp.makeFeasible high pick with
+  | .error e => pure (showErr e)
+  | .ok (Q, sol) =>
+    pure s!"ok {showGraph Q.g} | {showList (fun rt => showList toString rt) Q.routes} | {showRats Q.costs} | {showRats sol}"
+
 def formCmds : List (String × P String) :=
   [("arc.data", cmdArcData), ("arc.qubo", cmdArcQubo), ("arc.lookup", cmdArcLookup),
    ("path.hist", cmdPathHist), ("path.data", cmdPathData), ("path.qubo", cmdPathQubo),
-   ("seq.decode", cmdSeqDecode), ("arc.decode", cmdArcDecode), ("seq.data", cmdSeqData), ("seq.qubo", cmdSeqQubo), ("seq.lookup", cmdSeqLookup)]
+   ("seq.decode", cmdSeqDecode), ("arc.decode", cmdArcDecode), ("seq.heur", cmdSeqHeur), ("arc.heur", cmdArcHeur), ("path.heur", cmdPathHeur), ("seq.data", cmdSeqData), ("seq.qubo", cmdSeqQubo), ("seq.lookup", cmdSeqLookup)]
 
 end Vrp.Drv
